@@ -28,13 +28,23 @@ double lsv_d(void){ double v = nondet_double(); return v; }
 long long lsv_i(void){ long long v = (long long)nondet_size_t(); return v; }
 #endif
 #define ASSUME(c) __CPROVER_assume(c)
+#ifdef LSV_SAFETY_ONLY
+/* memory-safety run of a value harness: only CBMC's own pointer/bounds/overflow checks are goals */
+#define CHECK(c, label) ((void)0)
+#define CHECK_EQ(a, b, label) ((void)0)
+#define CHECK_LE(a, b, label) ((void)0)
+#define LEMMA_EQ(a, b, label) ((void)0)
+#else
 /* every goal goes through a named boolean (lsv_c_) so that the E-REAL slicer can tell the negated goal from assumptions */
 #define CHECK(c, label) do{ _Bool lsv_c_ = (c); __CPROVER_assert(lsv_c_, label); }while(0)
 /* equality of doubles: exact in the symbolic build (bit-exact in E-BITS apart from NaN==NaN, exact reals in E-REAL) */
 #define CHECK_EQ(a, b, label) do{ double lsv_a_=(a), lsv_b_=(b); _Bool lsv_c_ = (lsv_a_==lsv_b_ || (lsv_a_!=lsv_a_ && lsv_b_!=lsv_b_)); __CPROVER_assert(lsv_c_, label); }while(0)
 #define CHECK_LE(a, b, label) do{ _Bool lsv_c_ = ((a) <= (b)); __CPROVER_assert(lsv_c_, label); }while(0)
+#endif
+#ifndef LSV_SAFETY_ONLY
 /* link of an assert-then-assume chain: proved as its own VC, then available as a hypothesis to the later assertions */
 #define LEMMA_EQ(a, b, label) do{ double lsv_x_=(a), lsv_y_=(b); { _Bool lsv_c_ = (lsv_x_==lsv_y_); __CPROVER_assert(lsv_c_, label); } __CPROVER_assume(lsv_x_==lsv_y_); }while(0)
+#endif
 /* reachability witness: expected to FAIL (the end of the harness is reachable under the assumptions) */
 #define WITNESS() __CPROVER_assert(0, "LSV_WITNESS end of harness reachable")
 #define LSV_SYMBOLIC 1
